@@ -46,10 +46,30 @@ ValueKeyEq(a, b) == /\ PyEq(a, b)
                     /\ a.pt = b.pt
                     /\ SignInKey => a.neg = b.neg
 
-\* declared type of the like of a constant (likes are symbols or constants here)
+\* The like of a constant is normalised (expr.normalize_like): a constant or select passes to its own like /
+\* first branch, the kinds of PassFirst pass to their first operand; every other expression is kept.  The
+\* reference type of the constant is the static type of the normalised like: the requested type for a symbol,
+\* the type the package reports for an operation node (recorded in the node's ty by the trace spec; operation
+\* nodes are likes only in simulation and in traces).
+PassFirst == {"negative", "positive", "add", "subtract", "multiply", "divide", "maximum", "minimum", "acos", "acosh", "asin",
+              "asinh", "atan", "atan2", "atanh", "cos", "cosh", "sin", "sinh", "tan", "tanh", "exp", "exp2", "expm1", "log",
+              "log1p", "log2", "log10", "conj", "hypot", "sqrt", "square", "asin_acos_kernel"}
 RECURSIVE LikeSym(_, _)
-LikeSym(ns, id) == IF ns[id].kind = "constant" THEN LikeSym(ns, ns[id].like) ELSE id
+LikeSym(ns, id) == IF ns[id].kind = "constant" THEN LikeSym(ns, ns[id].like)
+                   ELSE IF ns[id].kind = "select" THEN LikeSym(ns, ns[id].ops[2])
+                   ELSE IF ns[id].kind \in PassFirst THEN LikeSym(ns, ns[id].ops[1])
+                   ELSE id
 TypeOfLike(ns, id) == ns[LikeSym(ns, id)].ty
+\* absolute / real / imag pass to their operand only under conditions on complexness that the package decides
+\* with its own (expression-level) notion: both readings are admitted, so the reference type of a constant is
+\* one of a SET of candidate types
+RECURSIVE LikeTys(_, _)
+LikeTys(ns, id) == IF ns[id].kind = "constant" THEN LikeTys(ns, ns[id].like)
+                   ELSE IF ns[id].kind = "select" THEN LikeTys(ns, ns[id].ops[2])
+                   ELSE IF ns[id].kind \in PassFirst THEN LikeTys(ns, ns[id].ops[1])
+                   ELSE IF ns[id].kind \in {"absolute", "real", "imag"} THEN {ns[id].ty} \cup LikeTys(ns, ns[id].ops[1])
+                   ELSE IF ns[id].kind = "complex" THEN {ns[id].ty} \cup LikeTys(ns, ns[id].ops[1]) \cup LikeTys(ns, ns[id].ops[2])
+                   ELSE {ns[id].ty}
 
 (*************************** keys *******************************************)
 TwoLevel(ns, id) == IF ns[id].kind \in {"symbol", "constant"} THEN <<ns[id].kind, <<id>>>>
@@ -73,7 +93,7 @@ Differ(ns, a, b) ==
   \/ a.kind # b.kind
   \/ a.kind = "symbol" /\ (a.name # b.name \/ a.ty # b.ty)
   \/ a.kind = "constant" /\ ~VIsNaN(a.value) /\ ~VIsNaN(b.value)
-       /\ (~ValueSame(a.value, b.value) \/ TypeOfLike(ns, a.like) # TypeOfLike(ns, b.like))
+       /\ (~ValueSame(a.value, b.value) \/ LikeTys(ns, a.like) \cap LikeTys(ns, b.like) = {})
   \/ a.kind = "constant" /\ VIsNaN(a.value) # VIsNaN(b.value)
   \/ a.kind \notin {"symbol", "constant"} /\ a.ops # b.ops
 \* two requests certainly denote the same expression (same like OBJECT after normalisation;
@@ -94,6 +114,14 @@ Construct(r) ==
 
 Exprs == 1..Len(nodes)
 Likes == {i \in Exprs : nodes[i].kind \in {"symbol", "constant"}}
+\* simulation: any expression that is not boolean-valued may be the like of a constant
+BoolValued == {"lt", "le", "gt", "ge", "eq", "ne", "logical_and", "logical_or", "logical_xor", "logical_not", "is_finite"}
+\* kinds the package has no static type for (get_type raises): never a like, nor inside one
+Untypable == {"bitwise_and", "bitwise_left_shift", "bitwise_or", "bitwise_right_shift", "bitwise_xor", "bitwise_invert",
+              "floor_divide", "round", "truncate"}
+RECURSIVE Typable(_, _)
+Typable(ns, id) == ns[id].kind \notin Untypable /\ \A j \in 1..Len(ns[id].ops) : Typable(ns, ns[id].ops[j])
+LikesAny == {i \in Exprs : nodes[i].kind \notin BoolValued /\ Typable(nodes, i)}
 RECURSIVE Tuples(_, _)
 Tuples(S, n) == IF n = 0 THEN {<<>>} ELSE {<<x>> \o t : x \in S, t \in Tuples(S, n - 1)}
 
